@@ -1,22 +1,20 @@
 #!/usr/bin/env python3
 """Prints (markdown) which check caught which confirmed seeded change, from seeded/*/meta.json."""
-import glob, json, os
+import glob, json, os, re
 ROOT = os.path.dirname(os.path.dirname(os.path.abspath(__file__)))
 rows = []
 for f in sorted(glob.glob(os.path.join(ROOT, "seeded", "*", "meta.json"))):
     m = json.load(open(f))
-    obl = sorted({l.split("failed obligation: ")[1].split(":")[0] for l in m.get("check_output", []) if "failed obligation: " in l})
-    tiers = []
-    for l in m.get("check_output", []):
-        if l.startswith("["):
-            summary = l
-            break
-    else:
-        summary = ""
-    first = (m.get("needs_to_manifest") or "").strip().splitlines()
-    desc = " ".join(first[:3])[:220]
-    rows.append((m["name"], m["property"], "yes" if m.get("detected_by_quick_check") else "NO", ", ".join(obl)[:160], desc))
-print("| seeded change | property | caught by quick check | failing obligation(s) | what it is |")
+    out = m.get("check_output", [])
+    obl = sorted({l.split("failed obligation: ")[1].split(":")[0] for l in out if "failed obligation: " in l})
+    ded = sorted({o.split("@")[0] for o in obl if "@cfg" in o or "@cpython" in o or "assigns-nothing" in o})
+    bnd = sorted({o for o in obl if "@" not in o and "assigns-nothing" not in o})
+    notes = open(os.path.join(os.path.dirname(f), "notes.md")).read() if os.path.exists(os.path.join(os.path.dirname(f), "notes.md")) else ""
+    mm = re.search(r"`(abtem/[^`]+)`[^`]*`([A-Za-z_.]+)`", notes) or re.search(r"(abtem/[\w/]+\.py)[^\w]+`?([A-Za-z_.]+)", notes)
+    site = f"{mm.group(1)}: {mm.group(2)}" if mm else ""
+    rows.append((m["name"], site[:70], "yes" if m.get("detected_by_quick_check") else "NO",
+                 ", ".join(o.split("/", 1)[1] for o in ded)[:110] or "—", ", ".join(o.split("/", 1)[1] for o in bnd)[:150] or "—"))
+print("| change (property) | site of the change | caught by the quick check | refuted contract obligations (deductive tier) | failing run-time contracts (bounded tier) |")
 print("|---|---|---|---|---|")
 for r in rows:
     print("| " + " | ".join(r) + " |")
